@@ -175,10 +175,14 @@ func result(err error, okLine string) string {
 
 func mkUpdater(j interface{}, calls *[]string) func(doc *d.Document) *d.Document {
 	m := j.(map[string]interface{})
+	_, inplace := m["inplace"] // the updater mutates the document it is given and returns it
 	return func(doc *d.Document) *d.Document {
 		*calls = append(*calls, canonDoc(doc.AsMap()))
 		if a, ok := m["setAll"]; ok {
 			nd := doc.Copy()
+			if inplace {
+				nd = doc
+			}
 			for _, p := range a.([]interface{}) {
 				pa := p.([]interface{})
 				nd.Set(unhx(pa[0].(string)), decValue(pa[1]))
@@ -194,6 +198,9 @@ func mkUpdater(j interface{}, calls *[]string) func(doc *d.Document) *d.Document
 		if a, ok := m["copy"]; ok {
 			arr := a.([]interface{})
 			nd := doc.Copy()
+			if inplace {
+				nd = doc
+			}
 			nd.Set(unhx(arr[1].(string)), doc.Get(unhx(arr[0].(string))))
 			return nd
 		}
